@@ -10,6 +10,20 @@ valid clause    every corpus packet, and every packet obtained by a setter histo
                 the reference CRC-16 (ref/crc16.py) of all preceding octets in its last two octets, is accepted by every
                 decoder, and check_pus_crc answers True.  `pack(recalc_crc=False)` directly after a change is never used
                 (its docstring makes the stale CRC the caller's responsibility).
+
+signatures      C04.flip/<decoder>/accepted-corrupted[/returned=<class>]      a decoder returned an object for a corrupted packet
+                C04.flip/<decoder>/undocumented-exception/<Class> | hang      neither an object nor a documented error
+                C04.crc/check_pus_crc/true-for-corrupted | false-for-uncorrupted
+                C04.trailer/<Kind>.pack/not-crc16-of-all-preceding-octets[/after=<setters>][/start=decoded][/route=<route>]
+                C04.valid/<decoder>/uncorrupted-refused[/after=<setters>][/start=decoded][/route=<route>]
+                The history features are those of the minimised history and are dropped when the same site already fails
+                for some corpus packet without any history (then it is that defect, whatever was set before).
+
+Detection self-test (scratch copies of the repaired tree, all reported): KeepAlivePdu.unpack without
+verify_length_and_checksum; verify_length_and_checksum skipping the CRC for 8-octet entity IDs; PusTm CRC over packed[1:] in
+pack and unpack (self-consistent - caught by the reference trailer and by the refused reference packet); PusTc with a
+"dirty" flag that the source_id setter forgets (stale CRC after pack(); source_id = x; pack()); PusTm.unpack not checking the
+CRC when the timestamp length is 0.
 """
 
 from __future__ import annotations
@@ -293,8 +307,11 @@ def flip_one(rec, unit, recipe, off, L, pat, crc=True, guard=True):
     documented = tuple(unit.documented)
     what = {"valid_packet": raw, "corrupted": c, "flipped_bits": bits, "region": _region(unit, raw, bits)}
     for dn, dec in unit.decoders():
+        imports = "".join(f"from {x.__module__} import {x.__name__}\n" for x in documented if x.__module__ != "builtins")
+        call = _decoder_src(unit, dn, recipe).split("\n")
         repro = (f"buf = bytes.fromhex('{c.hex()}')  # valid packet {raw.hex()} with bit(s) {bits} flipped (bit 0 = MSB of octet 0)\n"
-                 + _decoder_src(unit, dn, recipe) + "\nassert False, 'corrupted packet accepted: %r' % (r,)  # a documented error must be raised")
+                 + imports + "\n".join(call[:-1]) + "\ntry:\n    " + call[-1] + "\nexcept (" + ", ".join(x.__name__ for x in documented)
+                 + ",):\n    pass  # a documented error: what the property demands\nelse:\n    assert r is None, 'corrupted packet accepted: %r' % (r,)")
         try:
             # guard=False inside the shard loop, whose per-offset watchdog is already running (watchdogs do not nest)
             with (Watchdog(SINGLE_BUDGET_S) if guard else _NoGuard()):
@@ -753,34 +770,83 @@ def event_name(ev):
     return ev[1].split(".")[-1] + ("()" if ev[0] == "call" else "")
 
 
+CRC_SRC = (
+    "def crc16(d):  # CRC-16/CCITT-FALSE, bitwise: poly 0x1021, init 0xFFFF, no reflection, no final xor\n"
+    "    c = 0xFFFF\n"
+    "    for b in d:\n"
+    "        c ^= b << 8\n"
+    "        for _ in range(8):\n"
+    "            c = ((c << 1) ^ 0x1021) & 0xFFFF if c & 0x8000 else (c << 1) & 0xFFFF\n"
+    "    return c"
+)
+
+
+def pus_ctor_src(name, r):
+    """python source constructing the PUS packet of a recipe as `obj`"""
+    hx = lambda k: f"bytes.fromhex('{UP.bb(r[k]).hex()}')"  # noqa: E731
+    if name == "PusTc":
+        return ("from spacepackets.ecss.tc import PusTc\n"
+                f"obj = PusTc(service={r['svc']}, subservice={r['sub']}, apid={r['apid']:#x}, app_data={hx('data')}, seq_count={r['seq']:#x}, "
+                f"source_id={r['src']:#x}, ack_flags={r['ack']:#x})")
+    if name == "PusTm":
+        return ("from spacepackets.ecss.tm import PusTm\n"
+                f"obj = PusTm(service={r['svc']}, subservice={r['sub']}, timestamp={hx('ts')}, source_data={hx('data')}, apid={r['apid']:#x}, "
+                f"seq_count={r['seq']:#x}, message_counter={r['mc']:#x}, space_time_ref={r['tref']}, destination_id={r['dest']:#x}, packet_version={r['ver']})")
+    if name == "Service17Tm":
+        return ("from spacepackets.ecss.pus_17_test import Service17Tm\n"
+                f"obj = Service17Tm(apid={r['apid']:#x}, subservice={r['sub']}, timestamp={hx('ts')}, ssc={r['seq']:#x}, source_data={hx('data')}, "
+                f"packet_version={r['ver']}, space_time_ref={r['tref']}, destination_id={r['dest']:#x})")
+    if name == "Service1Tm":
+        ver, typ, shf, apid, fl, cnt = r["rid"]
+        step = f"PacketFieldEnum.with_byte_size({r['step'][1]}, {r['step'][0]:#x})" if r["step"] else "None"
+        fail = (f"FailureNotice(PacketFieldEnum.with_byte_size({r['fail'][0][1]}, {r['fail'][0][0]:#x}), bytes.fromhex('{UP.bb(r['fail'][1]).hex()}'))"
+                if r["fail"] else "None")
+        return ("from spacepackets.ccsds.spacepacket import PacketId, PacketSeqCtrl, PacketType, SequenceFlags\n"
+                "from spacepackets.ecss import PacketFieldEnum, RequestId\n"
+                "from spacepackets.ecss.pus_1_verification import FailureNotice, Service1Tm, Subservice, VerificationParams\n"
+                f"rid = RequestId(PacketId(PacketType({typ}), {bool(shf)}, {apid:#x}), PacketSeqCtrl(SequenceFlags({fl}), {cnt:#x}), {ver})\n"
+                f"obj = Service1Tm(apid={r['apid']:#x}, subservice=Subservice({r['sub']}), timestamp={hx('ts')}, "
+                f"verif_params=VerificationParams(rid, {step}, {fail}), seq_count={r['seq']:#x}, packet_version={r['ver']}, "
+                f"space_time_ref={r['tref']}, destination_id={r['dest']:#x})")
+    raise AssertionError(name)
+
+
 def valid_repro(unit, recipe, start, history, route, fail):
+    """self-contained python (only `import spacepackets`) that fails on a tree with the defect and passes on a correct one"""
     name = unit.name
-    lines = []
-    if unit.is_cfdp_pdu:
-        r = U.norm(recipe)
-        lines.append(U.ctor_source(name, r["cfg"], r["params"]).replace("pdu = ", "obj = "))
-    else:
-        lines.append("from spacepackets.ecss import *; from spacepackets.ecss.tc import *; from spacepackets.ecss.tm import *")
-        lines.append("from spacepackets.ecss.pus_17_test import Service17Tm; from spacepackets.ecss.pus_1_verification import *")
-        lines.append("from spacepackets.ccsds.spacepacket import *")
-        lines.append(f"obj = ...  # {name} of the recipe {recipe!r} (units/pus.py {name}Unit.build)")
     ref = unit.ref(recipe)
+    lines = [f"# observed by the check: {fail.clause}/{fail.subject}/{fail.kind}"]
     if start == "ref":
-        lines = [f"buf = bytes.fromhex('{ref.hex()}')  # reference octets with the reference CRC-16", _decoder_src(unit, fail.subject, recipe)]
-        return "\n".join(lines) + "\n# expected: a packet object; " + fail.kind
-    if start == "packed":
-        lines.append("obj.pack()")
-    elif start == "decoded":
-        lines.append(f"buf = bytes.fromhex('{ref.hex()}')")
-        lines.append(_decoder_src(unit, unit.decoders()[0][0], recipe).replace("r = ", "obj = "))
-    for ev in history:
-        lines.append(f"obj.{ev[1]}()" if ev[0] == "call" else f"obj.{ev[1]} = {value_src(ev[2])}")
-    lines.append({"pack": "raw = bytes(obj.pack())", "pack+pack": "obj.pack(); raw = bytes(obj.pack())",
-                  "pack+norecalc": "obj.pack(); raw = bytes(obj.pack(recalc_crc=False))",
-                  "calc_crc+norecalc": "obj.calc_crc(); raw = bytes(obj.pack(recalc_crc=False))",
-                  "to_space_packet": "raw = bytes(obj.to_space_packet().pack())"}[route])
-    lines.append("# expected: raw[-2:] is the CRC-16/CCITT-FALSE of raw[:-2] and every decoder / check_pus_crc accepts raw; observed: "
-                 f"{fail.clause}/{fail.subject}/{fail.kind}")
+        lines.append(f"raw = bytes.fromhex('{ref.hex()}')  # valid packet (reference encoder), trailer = CRC-16/CCITT-FALSE of all preceding octets")
+    else:
+        if start == "decoded":
+            lines.append(f"buf = bytes.fromhex('{ref.hex()}')  # valid packet (reference encoder)")
+            lines.append(_decoder_src(unit, unit.decoders()[0][0], recipe).replace("r = ", "obj = "))
+        elif unit.is_cfdp_pdu:
+            r = U.norm(recipe)
+            lines.append(U.ctor_source(name, r["cfg"], r["params"]).replace("pdu = ", "obj = "))
+        else:
+            lines.append(pus_ctor_src(name, recipe))
+        if start == "packed":
+            lines.append("obj.pack()")
+        if any(isinstance(ev[2], dict) and ev[2].get("enum") == "SequenceFlags" for ev in history if ev[0] == "set"):
+            lines.append("from spacepackets.ccsds.spacepacket import SequenceFlags")
+        if unit.is_cfdp_pdu and start == "decoded":
+            lines.append("from spacepackets.cfdp import *; from spacepackets.cfdp.defs import *; from spacepackets.cfdp.tlv import *")
+            lines.append("from spacepackets.cfdp.pdu import *; from spacepackets.cfdp.pdu.file_data import *; from spacepackets.cfdp.pdu.prompt import ResponseRequired")
+        for ev in history:
+            lines.append(f"obj.{ev[1]}()" if ev[0] == "call" else f"obj.{ev[1]} = {value_src(ev[2])}")
+        lines.append({"pack": "raw = bytes(obj.pack())", "pack+pack": "obj.pack(); raw = bytes(obj.pack())",
+                      "pack+norecalc": "obj.pack(); raw = bytes(obj.pack(recalc_crc=False))",
+                      "calc_crc+norecalc": "obj.calc_crc(); raw = bytes(obj.pack(recalc_crc=False))",
+                      "to_space_packet": "raw = bytes(obj.to_space_packet().pack())"}[route])
+        lines.append(CRC_SRC)
+        lines.append("assert raw[-2:] == crc16(raw[:-2]).to_bytes(2, 'big'), 'trailer is not the CRC-16 of all preceding octets'")
+    lines.append("buf = raw")
+    for dn, _ in unit.decoders():
+        lines.append(_decoder_src(unit, dn, recipe) + f"  # must accept the uncorrupted packet\nassert r is not None")
+    if not unit.is_cfdp_pdu:
+        lines.append("from spacepackets.ecss import check_pus_crc\nassert check_pus_crc(raw) is True")
     return "\n".join(lines)
 
 
@@ -851,10 +917,9 @@ def run_valid(rec, item):
             for route in routes_of(unit.name):
                 valid_case(rec, unit, recipe, start, h, route, item["tier"])
     rec.outcome(f"{unit.name}: uncorrupted packets judged")
-    if item["i"] == 0:
-        h = [events[0], events[-1], events[1 % len(events)]][:depth]
-        rec.sample({"unit": unit.name, "recipe": recipe, "valid_clause_example": {"start": "packed", "history": h, "route": routes_of(unit.name)[-1]},
-                    "event_menu": events, "expected": "trailer == ref.crc16(all preceding octets); accepted by " + ", ".join(dn for dn, _ in unit.decoders())}, limit=1)
+    h = [events[0], events[-1], events[1 % len(events)]][:depth]
+    rec.sample({"unit": unit.name, "recipe": recipe, "valid_clause_example": {"start": "packed", "history": h, "route": routes_of(unit.name)[-1]},
+                "event_menu": events, "expected": "trailer == ref.crc16(all preceding octets); accepted by " + ", ".join(dn for dn, _ in unit.decoders())}, limit=1)
 
 
 # ============================================================================== driver
